@@ -68,9 +68,9 @@ type c15World struct {
 // Each feature: a component schema and three values (conforming, violating, conforming).
 type c15Feature struct {
 	name   string
-	schema string // may contain %d (case-fresh pattern text)
+	schema string    // may contain %d (case-fresh pattern text)
 	vals   [3]string // JSON texts (may contain %d)
-	scalar bool   // usable as a styled query / header value
+	scalar bool      // usable as a styled query / header value
 }
 
 var c15Features = []c15Feature{
@@ -172,8 +172,10 @@ func c15Doc(idx int) string {
 }
 
 // c15ProductDoc: per feature F a component schema F_<f>, a wrapper W_<f> = {p: F}, and the paths
-//   /f/<f>  get: query parameter p of F, 200 with a JSON body W;  post: JSON body W, 200 with a JSON body W
-//   /h/<f>  get: header parameter X-P of F, 200 with a response header X-P of F and no content
+//
+//	/f/<f>  get: query parameter p of F, 200 with a JSON body W;  post: JSON body W, 200 with a JSON body W
+//	/h/<f>  get: header parameter X-P of F, 200 with a response header X-P of F and no content
+//
 // and the media-type paths /mt/exact (every media type of the catalogue declared by name), /mt/appstar (application/*),
 // /mt/any (*/*), request body and 200 response alike.
 func c15ProductDoc(idx int) (string, string) {
@@ -705,7 +707,7 @@ func c15Snapshot(ws ...*c15World) map[string]any {
 		}
 	}
 	return map[string]any{"docs": docs, "decoders": dec, "encoders": enc,
-		"formats": []any{len(openapi3.SchemaStringFormats), len(openapi3.SchemaNumberFormats), len(openapi3.SchemaIntegerFormats)},
+		"formats":     []any{len(openapi3.SchemaStringFormats), len(openapi3.SchemaNumberFormats), len(openapi3.SchemaIntegerFormats)},
 		"details_off": openapi3.SchemaErrorDetailsDisabled}
 }
 
@@ -892,9 +894,10 @@ func c15RaceFns(report string) []any {
 }
 
 func init() {
-	drivers["C15"] = &Driver{Run: c15Run, PerCaseTimeoutMs: 60000, Abnormal: func(c *Case, kind string) []any {
-		var raw map[string]any
-		c.Decode(&raw)
-		return []any{map[string]any{"case": c.Idx, "c": raw, "outcome": kind, "runs": []any{}, "racefns": c15RaceFns(lastChildStderr)}}
-	}}
+	drivers["C15"] = &Driver{Run: c15Run, PerCaseTimeoutMs: 300000, // (a run is 8-16 goroutines under -race: slow on a loaded machine is not a hang)
+		Abnormal: func(c *Case, kind string) []any {
+			var raw map[string]any
+			c.Decode(&raw)
+			return []any{map[string]any{"case": c.Idx, "c": raw, "outcome": kind, "runs": []any{}, "racefns": c15RaceFns(lastChildStderr)}}
+		}}
 }
